@@ -4,27 +4,9 @@
 //!   avra-verif replay <ID> <file>
 //!   avra-verif selftest
 
-pub mod ast;
-pub mod evidence;
-pub mod gen;
-pub mod ihex;
-pub mod model;
-pub mod render;
-pub mod isa;
-pub mod oracle;
-pub mod par;
-pub mod pool;
-pub mod props;
-pub mod run;
-
-use evidence::{finish, RunInfo, COMMON_ASSUMPTIONS};
+use avra_verif::*;
+use avra_verif::evidence::{finish, RunInfo, COMMON_ASSUMPTIONS};
 use std::time::Instant;
-
-pub struct Ctx {
-    pub thorough: bool,
-    pub seed: u64,
-    pub known: evidence::KnownFindings,
-}
 
 fn usage() -> ! {
     eprintln!("usage: avra-verif check <ID> --tier quick|thorough --seed N | replay <ID> <file> | selftest");
@@ -41,6 +23,38 @@ fn main() {
     match args[1].as_str() {
         "worker" => pool::worker_main(false),
         "worker-full" => pool::worker_main(true),
+        "fuzzreplay" => {
+            // fuzzreplay <target> <artifact file>: re-judge a libFuzzer artifact on the deterministic path
+            if args.len() < 4 {
+                usage();
+            }
+            let data = std::fs::read(&args[3]).unwrap_or_default();
+            let prop = fuzz::property_of(&args[2]).unwrap_or("C16");
+            let r = if args[2] == "raw" {
+                // raw inputs are re-run in an isolated worker: stack overflows and hangs are outcomes too
+                let src = String::from_utf8_lossy(&data).to_string();
+                match props::c16::replay(&serde_json::json!({"kind": "isolated_no_crash", "src": src})) {
+                    Some(Ok(())) => Ok(()),
+                    Some(Err(e)) => Err((format!("c16:fuzz:{}", e.split(|c: char| !c.is_ascii_alphabetic()).next().unwrap_or("crash").to_lowercase()), e)),
+                    None => Ok(()),
+                }
+            } else {
+                fuzz::fuzz_one(&args[2], &data).map_err(|v| (v.sig, v.what))
+            };
+            match r {
+                Ok(()) => println!("fuzzreplay: property {} holds on this input", prop),
+                Err((sig, what)) => {
+                    let known = evidence::KnownFindings::load();
+                    if known.is_open(prop, &sig) {
+                        println!("KNOWN-FINDING: property={} {} [sig={}]", prop, known.open[&(prop.to_string(), sig.clone())], sig);
+                    } else {
+                        println!("VIOLATION property={} replay={}", prop, args[3]);
+                        println!("  sig={} {}", sig, run::truncate(&what, 400));
+                        std::process::exit(1);
+                    }
+                }
+            }
+        }
         "selftest" => match isa::self_test() {
             Ok(n) => {
                 println!("selftest ok ({} pinned encodings)", n);
